@@ -190,6 +190,12 @@ def join(a, b):
             return b.w(maybe_empty=True, const=None, litconst=None)
         if fb.get('elts') == [] and fa.get('elts') != [] and not fb.get('kw'):
             return a.w(maybe_empty=True, const=None, litconst=None)
+    if fa.get('ty') == fb.get('ty') == 'ndarray':
+        # np.array([]) joined with a computed array: the computed one, possibly empty
+        if fa.get('litconst') == ('c', []) and fb.get('litconst') != ('c', []):
+            return b.w(maybe_empty=True)
+        if fb.get('litconst') == ('c', []) and fa.get('litconst') != ('c', []):
+            return a.w(maybe_empty=True)
     if fa.get('ty') == fb.get('ty') == 'dict':
         # an empty dict / Counter() joined with a filled one: the filled one, possibly empty
         if fa.get('empty_init') and not fb.get('empty_init'):
